@@ -107,6 +107,9 @@ KINDS = [
     ('404var', 'GET', '/nope/{i}', {}),
     ('okvar', 'GET', '/ok', {'qs': 'n={i}'}),
     ('namedvar', 'GET', '/item/{i}', {}),
+    # handlers that set response headers to numbers and flags: equal values of different type (True / 1.0, 0.0 / -0.0) in different requests
+    ('hv-flag', 'GET', '/hv/flag', {}),
+    ('hv-num', 'GET', '/hv/num', {}),
 ]
 NK = len(KINDS)
 
@@ -177,6 +180,15 @@ def fresh_app():
     app.on_route('/acct', acct_hook)
     app.route('/acct/settings', 'GET', lambda **kw: 'settings ' + repr(sorted(kw.items())))
     app.route('/about', 'GET', lambda: 'about us')
+
+    def hv(values):
+        def h():
+            for name, v in values:
+                app.response.headers[name] = v
+            return 'header values set'
+        return h
+    app.route('/hv/flag', 'GET', hv([('X-Cached', True), ('X-Offset', 0.0), ('X-Count', 1)]))
+    app.route('/hv/num', 'GET', hv([('X-Cached', 1.0), ('X-Offset', -0.0), ('X-Count', True)]))
     app.route('/echo', 'GET', lambda **kw: 'echo ' + repr(sorted(kw.items())))
 
     def st599s():
